@@ -40,6 +40,11 @@ def generate(rng, tier):
         e = 0 if ty in ("i32", "u64") else rng.choice([-4, -2, 0, 0, 1, -16, -24])   # incl. very small scales
         sd = rng.choice([3, 10, 50])
         loc = [rng.choice([0, 0, 1, 5, 10]) * sd * rng.choice([-1, 1]) for _ in range(p)]
+        if ty in ("i32", "u64") and rng.random() < 0.3:
+            # large integer states (exactly representable in f32, but their squares exceed i32 / their sums are large):
+            # the trackers must convert to f32 before they square or accumulate
+            sd = rng.choice([20000, 300000])
+            loc = [rng.choice([50000, 200000, 2000000]) * (1 if ty == "u64" else rng.choice([-1, 1])) for _ in range(p)]
         if ty == "u64":
             loc = [abs(l) + 5 * sd for l in loc]
         shift = [rng.choice([0, 0, 1, 3]) * sd for _ in range(m)]          # chains may disagree
